@@ -9,6 +9,8 @@ import ScyllaVerif.Proofs.CodecEnc
 import ScyllaVerif.Proofs.CodecDec
 import ScyllaVerif.Proofs.CodecTotal
 import ScyllaVerif.Proofs.CarrierFactor
+import ScyllaVerif.Proofs.CodecDyn
+import ScyllaVerif.Proofs.CodecSpec
 
 namespace ScyllaVerif.Props.C01
 open ScyllaVerif.Vint ScyllaVerif.Cql ScyllaVerif.Codec
@@ -108,11 +110,77 @@ theorem encImpl_of_encSpec_ok (t : CqlTy) (v : CqlVal) (ws : Bool) (buf s : Byte
   have := encImpl_eq_encSpec t v ws buf (by rw [h]; intro e; cases e)
   rw [this, h]
 
+/-- A dynamic value (the image of an `Option<CqlValue>`) never contains the one thing the protocol cannot
+encode, a bare null / unset vector element … -/
+theorem encSpec_dyn_defined (t : CqlTy) (v : CqlVal) (h : v.isDyn = true) :
+    encSpec t v true ≠ .error .bareNullInVector := by
+  cases v with
+  | null => rw [encSpec]; simp [viewOf]
+  | _ => exact CodecDyn.nbt t _ true h
+
+/-- … so for the dynamic value type **implementation = specification holds unconditionally**. -/
+theorem encImpl_eq_encSpec_dyn (t : CqlTy) (v : CqlVal) (buf : Bytes) (h : v.isDyn = true) :
+    encImpl t v true buf =
+      (match encSpec t v true with
+       | .ok s => .ok (buf ++ s)
+       | .error e => .error e) :=
+  encImpl_eq_encSpec t v true buf (encSpec_dyn_defined t v h)
+
+/-! ### the bytes are the CQL v4 wire encoding (independent protocol definition `Model/CqlSpec.lean`) -/
+
+/-- The unsigned vint bit trick (`(639 - 9·lz) >> 6`, sign-extended length bits) produces the arithmetic
+definition of the format: `e` leading ones, the value's high bits, `e` big-endian bytes. -/
+theorem uvintEnc_is_wire (v : BitVec 64) : uvintEnc v = CqlSpec.uvintSpec v.toNat := CodecSpec.uvintEnc_eq_spec v
+
+/-- The zig-zag bit trick is `x ↦ 2x` for `x ≥ 0`, `x ↦ -2x - 1` for `x < 0`. -/
+theorem zigzagEnc_is_wire (v : BitVec 64) : (zigzagEnc v).toNat = CqlSpec.zigzagSpec v.toInt :=
+  CodecSpec.zigzag_eq_spec v
+
+/-- **Conformance of the content.**  For every type whose UDTs have distinct field names, whatever `encSpec`
+(the model's specification-side encoder, which shares `viewOf` / `lookupLast` with `encImpl`) produces is the
+encoding defined by `CqlSpec.specCell` — written from the protocol text without any of those helpers:
+big-endian widths per native, `decimal` = scale ++ unscaled, `duration` = three arithmetic zig-zag vints,
+`inet` 4 / 16 bytes, collections `[int n]` + `[bytes]` elements, tuple prefix, UDT fields in *type* order with
+null for absent ones (last duplicate wins), vectors by its own fixed-width table. -/
+theorem encSpec_is_wire (t : CqlTy) (v : CqlVal) (cell : Bytes) (hty : CqlSpec.wfTy t = true)
+    (h : encSpec t v true = .ok cell) : CqlSpec.specCell t v = some cell :=
+  CodecSpec.cell_of_body t (CodecSpec.sound t hty) v cell h
+
+/-- **The serializer writes the CQL v4 wire encoding**: for every dynamic value, every type and every buffer,
+if `serialize` succeeds it has appended exactly `CqlSpec.specCell t v`. -/
+theorem encImpl_wire (t : CqlTy) (v : CqlVal) (buf out : Bytes) (hty : CqlSpec.wfTy t = true)
+    (hd : v.isDyn = true) (h : encImpl t v true buf = .ok out) :
+    ∃ s, out = buf ++ s ∧ CqlSpec.specCell t v = some s := by
+  rw [encImpl_eq_encSpec_dyn t v buf hd] at h
+  cases hs : encSpec t v true with
+  | error e => rw [hs] at h; cases h
+  | ok s =>
+    rw [hs] at h
+    cases h
+    exact ⟨s, rfl, encSpec_is_wire t v s hty hs⟩
+
+-- non-vacuity: a UDT value with reordered, duplicated (last wins) and missing fields
+set_option maxRecDepth 100000 in
+example :
+    let t : CqlTy := .udt "ks" "t" [("a", .native .int), ("b", .native .text), ("c", .list (.native .bigint))]
+    let v : CqlVal := .udt "ks" "t" [("b", .text [0x78]), ("a", .int 1), ("b", .text [0x79, 0x7a])]
+    CqlSpec.wfTy t = true ∧ v.isDyn = true ∧ wfCell (fun _ => true) t v = true ∧
+    CqlSpec.specCell t v = some [0, 0, 0, 0x12, 0, 0, 0, 4, 0, 0, 0, 1, 0, 0, 0, 2, 0x79, 0x7a, 0xff, 0xff, 0xff, 0xff] ∧
+    encImpl t v true [] = .ok [0, 0, 0, 0x12, 0, 0, 0, 4, 0, 0, 0, 1, 0, 0, 0, 2, 0x79, 0x7a, 0xff, 0xff, 0xff, 0xff] ∧
+    pad t v = .udt "ks" "t" [("a", .int 1), ("b", .text [0x79, 0x7a]), ("c", .null)] ∧
+    decBytes (fun _ => true) t [0, 0, 0, 0x12, 0, 0, 0, 4, 0, 0, 0, 1, 0, 0, 0, 2, 0x79, 0x7a, 0xff, 0xff, 0xff, 0xff] =
+      .ok (pad t v) := by
+  refine ⟨by rfl, by rfl, by rfl, encSpec_is_wire _ _ _ (by rfl) (by rfl), by rfl, by rfl, by rfl⟩
+
 /-! ### round trip -/
 
 /-- **Round trip (content level).**  (`_partial`: the full statement — every value that has the shape of
 the type — is false of the current tree, see the counterexamples at the end of the file; the domain here,
-`wfVal`, excludes exactly the shapes C01-F1, C01-F2, C01-F9 and types that are not CQL types.)  For every type, every value well-formed for it (`wfVal`: decidable —
+`wfVal` = "a CQL value of the type, under the constructor the type dictates", leaves out the shapes C01-F1,
+C01-F2, C01-F9 (defects), values outside the type's value space (`time_out_of_range_example`,
+`empty_varint_example`, `null_list_element_example`, non-ASCII `ascii`), the cross-constructor bindings
+(`cross_constructor_same_bytes`: same bytes, hence same decoded value, as the dictated constructor) and
+types that are not CQL types (zero-field tuple / UDT, vector dimension 0, duplicate UDT field names).)  For every type, every value well-formed for it (`wfVal`: decidable —
 shape of the type, UTF-8 / ASCII text, `time` within a day, non-empty varint, and none of the shapes C01-F1, C01-F2,
 C01-F9 below), the content bytes the protocol defines decode to the value's normal form `pad t v`
 (short tuples / UDTs padded with nulls, UDT fields in type order) — at every nesting depth; moreover the
@@ -295,5 +363,52 @@ theorem vector_empty_element_counterexample :
     encImpl (.vector (.native .int) 2) (.vector [.empty, .int 5]) true [] = .ok [0, 0, 0, 4, 0, 0, 0, 5] ∧
     decBytes allUtf8 (.vector (.native .int) 2) [0, 0, 0, 4, 0, 0, 0, 5] = .error .expectedNonNull := by
   refine ⟨by rfl, by rfl⟩
+
+/-! ### what `wfVal` excludes besides the known findings — each stated exactly
+
+`wfVal u t v` = "`v` is a CQL value of type `t`, under the constructor `t` dictates".  Outside it, and *not*
+defects (these are not values of the type): a `time` outside one day, a zero-byte varint, non-ASCII text
+bound to `ascii`, a null collection element for the dynamic type; plus the cross-constructor bindings the
+serializer accepts (`Set`/`Vector` for a list column, `Ascii` for a text column, …), which have the same
+bytes as the dictated constructor and therefore decode to it. -/
+
+/-- `CqlTime` is an unchecked `i64`: a value outside `0..=86399999999999` is written, and rejected when read. -/
+theorem time_out_of_range_example :
+    wfVal allUtf8 (.native .time) (.time 86400000000000) = false ∧
+    encImpl (.native .time) (.time 86400000000000) true [] = .ok [0, 0, 0, 8, 0, 0, 0x4e, 0x94, 0x91, 0x4f, 0, 0] ∧
+    decBytes allUtf8 (.native .time) [0, 0, 0, 8, 0, 0, 0x4e, 0x94, 0x91, 0x4f, 0, 0] = .error .valueOverflow := by
+  refine ⟨by rfl, by rfl, by rfl⟩
+
+/-- A `CqlVarint` of zero bytes is not a varint (§6.19: at least one byte): its cell is the *empty* value. -/
+theorem empty_varint_example :
+    wfVal allUtf8 (.native .varint) (.varint []) = false ∧
+    encImpl (.native .varint) (.varint []) true [] = .ok [0, 0, 0, 0] ∧
+    decBytes allUtf8 (.native .varint) [0, 0, 0, 0] = .ok .empty := by
+  refine ⟨by rfl, by rfl, by rfl⟩
+
+/-- A null list element (`Vec<Option<T>>`) has a well-defined encoding but is not a `CqlValue`: the dynamic
+decoder answers `ExpectedNonNull` (typed `Vec<Option<T>>` reads it back — harness oracle). -/
+theorem null_list_element_example :
+    wfVal allUtf8 (.list (.native .int)) (.list [.null]) = false ∧
+    encImpl (.list (.native .int)) (.list [.null]) true [] = .ok [0, 0, 0, 8, 0, 0, 0, 1, 0xff, 0xff, 0xff, 0xff] ∧
+    decBytes allUtf8 (.list (.native .int)) [0, 0, 0, 8, 0, 0, 0, 1, 0xff, 0xff, 0xff, 0xff] = .error .expectedNonNull := by
+  refine ⟨by rfl, by rfl, by rfl⟩
+
+/-- **Cross-constructor bindings.**  The serializer looks at a value only through its *view*: `List`, `Set`
+and `Vector` are the same `Vec<CqlValue>`, `Ascii` and `Text` the same `String` — at every type, writer mode
+and buffer they produce the same result as the constructor the column type dictates, so they decode to the
+round-trip normal form of that one ("equal up to the constructor the column type dictates"). -/
+theorem cross_constructor_same_bytes (t : CqlTy) (vs : List CqlVal) (s : Bytes) (ws : Bool) (buf : Bytes) :
+    encImpl t (.set vs) ws buf = encImpl t (.list vs) ws buf ∧
+    encImpl t (.vector vs) ws buf = encImpl t (.list vs) ws buf ∧
+    encImpl t (.ascii s) ws buf = encImpl t (.text s) ws buf := by
+  refine ⟨?_, ?_, ?_⟩ <;> (rw [encImpl, encImpl]; rfl)
+
+example :
+    encImpl (.list (.native .int)) (.set [.int 1]) true [] = .ok [0, 0, 0, 0xc, 0, 0, 0, 1, 0, 0, 0, 4, 0, 0, 0, 1] ∧
+    decBytes allUtf8 (.list (.native .int)) [0, 0, 0, 0xc, 0, 0, 0, 1, 0, 0, 0, 4, 0, 0, 0, 1] = .ok (.list [.int 1]) ∧
+    decBytes allUtf8 (.native .text) [0, 0, 0, 1, 0x61] = .ok (.text [0x61]) ∧
+    encImpl (.native .text) (.ascii [0x61]) true [] = .ok [0, 0, 0, 1, 0x61] := by
+  refine ⟨by rfl, by rfl, by rfl, by rfl⟩
 
 end ScyllaVerif.Props.C01
